@@ -184,9 +184,11 @@ def auerNewParetoCore (eps : Rat) (centre : Nat → Vec) (SW : List (Nat × Vec)
 /-- **What the property demands**: every design paired with its *own* width row. -/
 def byDesign (width : Nat → Vec) (S : List Nat) : List (Nat × Vec) := S.map (fun i => (i, width i))
 
-/-- **What the code does**: `enumerate(self.S)` + `self.beta_t[pt_i]` — the k-th design in the
-iteration order of the *current* `S` is paired with the k-th row of `beta_t` (rows computed by
-`compute_beta` for the iteration order of `S` at modelling time). -/
+/-- **What the original code did** (DESIGN §5 D2; repaired in /repo, where `beta_t` is now a dict
+keyed by design, i.e. `byDesign`): `enumerate(self.S)` + `self.beta_t[pt_i]` — the k-th design in
+the iteration order of the *current* `S` is paired with the k-th row of `beta_t` (rows computed by
+`compute_beta` for the iteration order of `S` at modelling time).  Kept as a literal mirror so that
+a return of positional lookup is recognised as such. -/
 def byPosition (rows : List Vec) (S : List Nat) : List (Nat × Vec) := S.zip rows
 
 /-- Auer `discarding()`, widths by design -/
@@ -212,8 +214,8 @@ def auerParetoPos (eps : Rat) (centre : Nat → Vec) (rows : List Vec) (S P : Li
 def auerRound (eps : Rat) (centre width : Nat → Vec) (S P : List Nat) : List Nat × List Nat :=
   auerPareto eps centre width (auerDiscard centre width S) P
 
-/-- one round as the code runs it: `rows` are aligned with the iteration order of `S` *before*
-discarding, and are re-read by position after `S` has shrunk. -/
+/-- one round as the original code ran it: `rows` are aligned with the iteration order of `S`
+*before* discarding, and are re-read by position after `S` has shrunk. -/
 def auerRoundPos (eps : Rat) (centre : Nat → Vec) (rows : List Vec) (S P : List Nat) :
     List Nat × List Nat :=
   auerParetoPos eps centre rows (auerDiscardPos centre rows S) P
